@@ -132,7 +132,7 @@ PROPS = {
     },
     "C20": {
         "rules": [kind_scope("mecab"), r_cost.run_c20, r_fmt.bigram_files, r_misc.template_cover,
-                  r_scorer.scorer_build, r_misc.regex_mecab],
+                  r_scorer.scorer_build, r_misc.regex_mecab, r_scorer.padval, r_scorer.reserved0],
         "explanation": "KIND: the documented left/right inversion of right-id.def/left-id.def is "
                        "applied consistently (readers, extractors, maps, writers, loop bounds vs "
                        "looked-up map); SIGN: cost = -(weight x factor); COSTTYPE: i32 as the "
@@ -165,7 +165,7 @@ PROPS = {
     "C12": {
         "rules": [r_misc.lattice_shape, r_misc.spaceopt, r_viterbi.traceback,
                   kind_scope("tokenizer", "unknown"), r_cand.cand, r_cand.charrange,
-                  r_misc.optkeep_tokenizer],
+                  r_misc.optkeep_tokenizer, r_reset.run_tokens],
         "explanation": "LATTICE: build_lattice_inner resets first, tests reachability, SPACE "
                        "membership and the skipped run at start_node, adds candidates with "
                        "(start_node, start_word), connects EOS from start_node on every path; "
@@ -179,7 +179,7 @@ PROPS = {
     },
     "C13": {
         "rules": [r_reset.run_counts, r_viterbi.pred, r_misc.enumall, r_misc.sortcmp, r_fmt.mapping_files,
-                  kind_scope("mapper", "worker", "lattice")],
+                  kind_scope("mapper", "worker", "lattice", "dictionary::connector")],
         "explanation": "RESET(W2, counts scope): update_connid_counts reads only a lattice that "
                        "the current reset_sentence/tokenize refreshed (or returns for an empty "
                        "sentence); PRED: each counted (right word, left word) pair takes the left "
